@@ -438,6 +438,7 @@ theorem irr_cmd (fuel : Nat) (ih : Irr fuel) :
     | specialColon => exact rel_finishSimple' _ e0 (by exact cond_of_stack rfl hc) _
     | regularTrue => exact rel_finishSimple' _ e0 (by exact cond_of_stack rfl hc) _
     | notFound => exact rel_finishSimple' _ e0 (by exact cond_of_stack rfl hc) _
+    | status n => exact rel_finishSimple' _ e0 (by exact cond_of_stack rfl hc) _
     | function body =>
       simp only
       have b1 := (bal fuel).cmd s body
